@@ -62,6 +62,8 @@ type FuncContract struct {
 	Fresh      bool
 	Ghost      []GhostUpdate // ghost assignments executed at every return
 	LoopAll    []Clause      // invariants that apply to every loop of the function
+	AssumePreOf   []string // like AssumePre, for callees whose name contains one of these strings
+	NoSafetyKinds map[string]bool // like NoSafety, for the listed obligation kinds only
 	NoSafety   bool          // do not generate nil/bounds/assert/div/panic obligations (partial correctness of the stated clauses only)
 	Template   bool          // verif:methods template, instantiated for every matching method
 	Taint      bool          // generate diagnostic-content (taint) obligations
@@ -418,9 +420,26 @@ func (cs *ContractSet) addClause(c *FuncContract, text, where string) error {
 	case "nilrecv":
 		c.NoNilRecv = true
 	case "nosafety":
-		c.NoSafety = true
+		// "nosafety" alone: no safety obligations at all; "nosafety nil div": only the listed
+		// kinds are assumed away, the others (e.g. bounds, panic) are still generated
+		if strings.TrimSpace(rest) == "" {
+			c.NoSafety = true
+		} else {
+			if c.NoSafetyKinds == nil {
+				c.NoSafetyKinds = map[string]bool{}
+			}
+			for _, k := range strings.Fields(strings.ReplaceAll(rest, ",", " ")) {
+				c.NoSafetyKinds[k] = true
+			}
+		}
 	case "assumepre":
-		c.AssumePre = true
+		// "assumepre" alone: every callee precondition is assumed; "assumepre A B": only those of
+		// callees whose name contains A or B
+		if strings.TrimSpace(rest) == "" {
+			c.AssumePre = true
+		} else {
+			c.AssumePreOf = append(c.AssumePreOf, strings.Fields(rest)...)
+		}
 	case "results":
 		c.Results = strings.Fields(strings.ReplaceAll(rest, ",", " "))
 	case "props":
